@@ -59,3 +59,21 @@ fn vk_sd_clone_deep<const P: usize>() {
 }
 // @harness vk_sd_clone_deep_p2 props=C05 kind=bounded(period=2) tier=quick
 #[kani::proof] #[kani::unwind(6)] fn vk_sd_clone_deep_p2() { vk_sd_clone_deep::<2>() }
+
+// no hidden state shared between instances: after another instance of the same period was used (past a wrap-around) and
+// dropped, a new instance starts from exactly the documented initial state (all-zero window, zero cursors)
+fn vk_sd_fresh_after_other<const P: usize, const K: usize>() {
+    {
+        let mut a = StandardDeviation::new(P).unwrap();
+        let mut i = 0;
+        while i < K { let _ = a.next(kani::any::<f64>()); i += 1; }
+    }
+    let b = StandardDeviation::new(P).unwrap();
+    assert!(b.index == 0 && b.count == 0 && b.period == P && b.deque.len() == P);
+    assert!(b.m.to_bits() == 0.0f64.to_bits());
+    assert!(b.m2.to_bits() == 0.0f64.to_bits());
+    let mut j = 0;
+    while j < P { assert!(b.deque[j].to_bits() == 0.0f64.to_bits()); j += 1; }
+}
+// @harness vk_sd_fresh_after_other_p2 props=C05 kind=bounded(period=2,history=3) tier=quick
+#[kani::proof] #[kani::unwind(6)] fn vk_sd_fresh_after_other_p2() { vk_sd_fresh_after_other::<2, 3>() }
